@@ -71,10 +71,36 @@ func symbol(f funcs.FHIRPathFunc) string {
 	return lib.Ascii(n)
 }
 
+// CustomName is the function the configuration "custom" registers
+// (WithExperimentalFuncs followed by AddFunction): zzCustom(x) = (x, count of
+// its input), as stated in spec/FPFunctions.tla.
+const CustomName = "zzCustom"
+
+func customFn(in system.Collection, x any) (system.Collection, error) {
+	return system.Collection{x, system.Integer(len(in))}, nil
+}
+
+// tableFor reads the implementation's table for a configuration through
+// funcs.Clone / funcs.AddExperimentalFuncs (and funcs.ToFunction for the custom
+// entry). It always returns a private copy and never writes into a map the
+// implementation handed out.
 func tableFor(cfg string) funcs.FunctionTable {
-	t := funcs.Clone()
-	if cfg == "experimental" {
-		t = funcs.AddExperimentalFuncs(t)
+	src := funcs.Clone()
+	if cfg == "experimental" || cfg == "custom" {
+		src = funcs.AddExperimentalFuncs(src)
+	}
+	t := make(funcs.FunctionTable, len(src)+1)
+	for k, v := range src {
+		t[k] = v
+	}
+	if cfg == "custom" {
+		if _, taken := t[CustomName]; !taken {
+			f, err := funcs.ToFunction(customFn)
+			if err != nil {
+				lib.Fatal("custom function: %v", err)
+			}
+			t[CustomName] = f
+		}
 	}
 	return t
 }
@@ -88,8 +114,11 @@ func entry(t funcs.FunctionTable, name string) tblEntry {
 }
 
 func copts(cfg string) []fhirpath.CompileOption {
-	if cfg == "experimental" {
+	switch cfg {
+	case "experimental":
 		return []fhirpath.CompileOption{compopts.WithExperimentalFuncs()}
+	case "custom":
+		return []fhirpath.CompileOption{compopts.WithExperimentalFuncs(), compopts.AddFunction(CustomName, customFn)}
 	}
 	return nil
 }
@@ -185,12 +214,16 @@ func main() {
 		lib.Fatal("%v", err)
 	}
 	// the implementation's tables as read at process start, before any Compile
-	cfgOf := map[byte]string{'D': "default", 'E': "experimental"}
+	cfgOf := map[byte]string{'D': "default", 'E': "experimental", 'X': "custom"}
+	allCfgs := []string{"default", "experimental", "custom"}
 	order := os.Args[4]
-	table0 := map[string]funcs.FunctionTable{"default": tableFor("default"), "experimental": tableFor("experimental")}
+	table0 := map[string]funcs.FunctionTable{}
+	for _, cfg := range allCfgs {
+		table0[cfg] = tableFor(cfg)
+	}
 	// names that only the implementation's tables know
 	implOnly := map[string]bool{}
-	for _, cfg := range []string{"default", "experimental"} {
+	for _, cfg := range allCfgs {
 		for n := range table0[cfg] {
 			if !specNames[n] {
 				implOnly[n] = true
@@ -203,7 +236,7 @@ func main() {
 	}
 	sort.Strings(extra)
 	for _, n := range extra {
-		for _, cfg := range []string{"default", "experimental"} {
+		for _, cfg := range allCfgs {
 			for c := 0; c <= 4; c++ {
 				args := make([]string, c)
 				for i := range args {
